@@ -50,6 +50,7 @@ def watchOne (s : State) (full : String) (zero : Bool) : State :=
 
 /-- Server.Reset as called from inside Invoke -/
 def requestReset (s : State) (reason : String) (from_ : Nat) : State :=
+  let s := { s with resv := s.resv.map fun r => { r with resetStarted := true } }
   { (cancelFlows s .reset) with queue := s.queue ++ [.reset reason from_] }
 
 def finishFlight (s : State) (f : Flight) (err : String) : State :=
@@ -62,7 +63,7 @@ def fastInvoke (s : State) (f : Flight) : State :=
   match s.resv with
   | none => setFlight s { f with g3 := .done }
   | some r =>
-    if r.replySent || r.replyStream then setFlight s { f with g3 := .done } else
+    if r.resetStarted || r.replySent || r.replyStream then setFlight s { f with g3 := .done } else
     let s := { s with resv := some { r with replyStream := true, writer := f.caller }, rapidPhaseInvoking := true }
     if s.invokerNil then setFlight { s with doneChan := some "ok" } { f with g3 := .fast, g4 := .done }
     else setFlight { s with queue := s.queue ++ [.invoke r.k f.caller f.phash] } { f with g3 := .fast, g4 := .waitMutex }
@@ -108,11 +109,17 @@ def orElse' {α : Type} (a : Option α) (b : Unit → Option α) : Option α :=
   match a with | some x => some x | none => b ()
 
 /-- moves of the handler-mutex thread, the mutex hand-over and the Invoke goroutines -/
-def platformMove (s : State) : Option State :=
+def platformMove (lifo : Bool) (s : State) : Option State :=
   orElse' (orchResume s) fun _ =>
   orElse' (shutResume s s.shutFrom) fun _ =>
   match s.orch, s.queue with
-  | .idle, r :: rest => some (startHandler { s with queue := rest } r)
+  | .idle, r :: rest =>
+    -- sync.Mutex is not FIFO: any waiting handler may get the handler-execution mutex
+    if lifo then
+      match s.queue.getLast? with
+      | some l => some (startHandler { s with queue := s.queue.dropLast } l)
+      | none => none
+    else some (startHandler { s with queue := rest } r)
   | _, _ => firstSome (flightMove s) s.flights
 
 /-- a parked API handler that was signalled runs -/
@@ -126,16 +133,18 @@ def killMove (s : State) : Option State :=
 
 /-- one internal move; `none` = quiescent. The events watcher always goes first. The relative
     order of (a) the platform threads, (b) a signalled API handler, (c) the Kill goroutines is
-    the Go scheduler's choice: `v` selects one of three fixed priorities (the oracle tries all):
+    the Go scheduler's choice: `v % 3` selects one of three fixed priorities, `v ≥ 3` makes the handler mutex LIFO (the oracle tries all six):
     0: platform, kills, wakes   1: wakes, platform, kills   2: platform, wakes, kills -/
 def progress (v : Nat) (s : State) : Option State :=
   if s.crashed then none else
   match s.exitQueue with
   | (full, zero) :: rest => some (watchOne { s with exitQueue := rest } full zero)
   | [] =>
-    if v == 1 then orElse' (wakeMove s) fun _ => orElse' (platformMove s) fun _ => killMove s
-    else if v == 2 then orElse' (platformMove s) fun _ => orElse' (wakeMove s) fun _ => killMove s
-    else orElse' (platformMove s) fun _ => orElse' (killMove s) fun _ => wakeMove s
+    let lifo := v ≥ 3
+    let w := v % 3
+    if w == 1 then orElse' (wakeMove s) fun _ => orElse' (platformMove lifo s) fun _ => killMove s
+    else if w == 2 then orElse' (platformMove lifo s) fun _ => orElse' (wakeMove s) fun _ => killMove s
+    else orElse' (platformMove lifo s) fun _ => orElse' (killMove s) fun _ => wakeMove s
 
 def settle (v : Nat) : Nat → State → State
   | 0, s => s
@@ -209,6 +218,9 @@ def applyOp (s : State) : Op → State
     if name == "rtDeadline" then { s with rtDeadlineFired := true }
     else if name == "agDeadline" then { s with agDeadlineFired := true }
     else if name == "grace" then { s with graceFired := true }
+    else if name == "resetTail:0" then resetTail s 0
+    else if name == "resetTail:1" then resetTail s 1
+    else if name == "resetTail:2" then resetTail s 2
     else
       -- invoke:<c> — the timeout goroutine of caller c fires
       match s.flights.find? (fun f => s!"invoke:{f.caller}" == name && f.g0 == .selecting) with
